@@ -365,14 +365,29 @@ fn values_and_noop(rep: &mut Report, r: &mut Rng) {
         let after_set = f64::from_bits(st.load(Ordering::SeqCst));
         let _ = after_set;
     }
-    // set leaves exactly the value given; GaugeValue::update_value semantics
-    for f in vals_f {
-        let st = Arc::new(AtomicU64::new(7f64.to_bits()));
-        let g = Gauge::from_arc(st.clone());
-        g.set(f);
-        if st.load(Ordering::SeqCst) != f.to_bits() {
-            rep.violation("C04:gauge-set-altered", jo! {"what" => "set(v) did not leave exactly v", "v" => f});
+    // set leaves exactly the value given (bit for bit), whatever the gauge held before — also when the two compare equal
+    // as floats (signed zeroes) or do not compare at all (NaN payloads); GaugeValue::update_value semantics
+    let nan_payload = f64::from_bits(0x7ff8_0000_0000_1234);
+    for prev in vals_f.iter().cloned().chain([7.0, nan_payload]) {
+        for f in vals_f.iter().cloned().chain([nan_payload]) {
+            let st = Arc::new(AtomicU64::new(prev.to_bits()));
+            let g = Gauge::from_arc(st.clone());
+            g.set(f);
+            rep.case(mix(prev.to_bits(), f.to_bits()), true);
+            if st.load(Ordering::SeqCst) != f.to_bits() {
+                rep.violation("C04:gauge-set-altered", jo! {"what" => "set(v) did not leave exactly v (compared bit for bit)", "v" => format!("{:?} (bits {:#018x})", f, f.to_bits()), "held_before" => format!("{:?} (bits {:#018x})", prev, prev.to_bits()), "left" => format!("{:#018x}", st.load(Ordering::SeqCst))});
+            }
+            // reached zero by arithmetic, then set to the zero of the other sign
+            let st2 = Arc::new(AtomicU64::new(2.5f64.to_bits()));
+            let g2 = Gauge::from_arc(st2.clone());
+            g2.decrement(2.5);
+            g2.set(f);
+            if st2.load(Ordering::SeqCst) != f.to_bits() {
+                rep.violation("C04:gauge-set-altered", jo! {"what" => "set(v) after the gauge was driven to zero by decrement did not leave exactly v", "v" => format!("{:?} (bits {:#018x})", f, f.to_bits())});
+            }
         }
+    }
+    for f in vals_f {
         let ok = GaugeValue::Absolute(f).update_value(3.0).to_bits() == f.to_bits()
             && (GaugeValue::Increment(2.0).update_value(3.0) == 5.0)
             && (GaugeValue::Decrement(2.0).update_value(3.0) == 1.0);
